@@ -32,7 +32,7 @@ ASSUMPTIONS = [
 ]
 RULE = ("cases: random scripts over acquire/release/sleep/wait with 1..3 locks in a fixed order and 2..5 "
         "PriorityTasks, directed chains of length 1..4 whose top holder is runnable / blocked on an event / "
-        "blocked on another lock, directed 'urgent task arrives behind a queued holder' shapes; all arrival "
+        "blocked on another lock, directed 'urgent task arrives behind a queued holder' shapes, also with 17..25 waiters on one lock of the chain, a user priority() that raises once inside acquire; all arrival "
         "orders through random sleeps; both loops.  Non-trivial = some task inherited a priority (directly or "
         "through a chain), or a scheduling decision was taken on the priority loop while a runnable holder "
         "blocked a waiter.  distinct = hash of the canonical case")
@@ -59,7 +59,14 @@ def gen(rng, n):
     out = []
     for _ in range(n):
         g = rng.random()
-        if g < 0.30:
+        if g < 0.01:
+            # a crowded lock (17..25 waiters) in the middle of a chain
+            out.append(S.gen_chain_contended_case(rng, "C11", crowd=rng.randint(16, 24)))
+        elif g < 0.02:
+            out.append(S.gen_headkey_case(rng, crowd=rng.choice([rng.randint(7, 10), rng.randint(15, 23)])))
+        elif g < 0.05:
+            out.append(S.gen_raising_callback_case(rng))
+        elif g < 0.30:
             out.append(S.gen_case(rng, "C11"))
         elif g < 0.50:
             out.append(S.gen_inherit_case(rng, "C11"))
